@@ -4,6 +4,7 @@ import json,sys,os
 p=os.path.join(os.path.dirname(os.path.dirname(os.path.abspath(__file__))),'known_findings.json')
 d=json.load(open(p))
 i,prop,commit,what=sys.argv[1:5]
-d['findings']=[f for f in d['findings'] if f['id']!=i]+[{'id':i,'property':prop,'status':'fixed','commit':commit,'what':what}]
+assert not any(f['id']==i for f in d['findings']), 'id already used: '+i
+d['findings']=d['findings']+[{'id':i,'property':prop,'status':'fixed','commit':commit,'what':what}]
 d['fixed']=[f"fixed: property={f['property']} {f['commit']} {f['what']}" for f in d['findings'] if f['status']=='fixed']
 json.dump(d,open(p,'w'),indent=1,ensure_ascii=False)
